@@ -64,7 +64,8 @@ def configs(tier, seed):
     # "ww": a named window holding two named windows that each hold a resource called ("leaf",)
     shared = [[["a", 1], ["r", 1], ["share", 1]], [["a", 1], ["r", 2], ["share", 1]], [["a", 2], ["r", 1], ["share", 2]],
               [["r", 1], ["a", 1], ["share", 1]], [["a", 1], ["w", 1], ["share", 1]], [["aa", 1], ["r", 1], ["share", 1]]]
-    nested = [[["rs"], ["r", 1]], [["rs"], ["r", 2]], [["r", 1], ["rs"]], [["r", 2], ["rs"], ["r", 1]], [["a", 1], ["rs"]],
+    nested = [[["w", 1], ["a", 1]], [["w", 1], ["a", 1, 1]], [["a", 1], ["w", 1], ["a", 1]],
+              [["rs"], ["r", 1]], [["rs"], ["r", 2]], [["r", 1], ["rs"]], [["r", 2], ["rs"], ["r", 1]], [["a", 1], ["rs"]],
               [["dup", 1]], [["r", 1], ["dup", 1]], [["dup", 2], ["r", 1]],
               [["aw", 1], ["r", 1]], [["aw", 1], ["r", 2]], [["aw", 2], ["r", 1]], [["r", 1], ["aw", 1, 1]], [["aw", 1], ["w", 1]],
               [["ww", 1], ["r", 1]], [["ww", 2], ["r", 2]], [["r", 1], ["ww", 1]], [["ww", 1], ["ww", 1]]]
@@ -284,7 +285,9 @@ def harness_for(cfg):
                 new_names = list(inner)
             elif kind in ("w", "xw"):
                 wname = name(lens[0])
-                sub.add_resource(Res(), name=("leaf",), size=1)
+                # (the resource inside a named window carries an alphabet name: invisible outside the window, so a
+                #  resource of the same name elsewhere - e.g. in an anonymous sibling window - is legal)
+                sub.add_resource(Res(), name=("a",), size=1)
                 new_names = [wname]
             else:
                 for L in lens:
@@ -311,7 +314,7 @@ def harness_for(cfg):
                 # retry with a fresh map carrying the same names at a legal address
                 sub2 = MemoryMap(addr_width=2, data_width=8)
                 if wname is not None:
-                    sub2.add_resource(Res(), name=("leaf",), size=1)
+                    sub2.add_resource(Res(), name=("a",), size=1)
                 else:
                     for nm in inner:
                         sub2.add_resource(Res(), name=nm, size=1)
